@@ -20,7 +20,9 @@ NOT_SPEC = object()
 
 F_WSUM = z3.Function("wsum", z3.ArraySort(z3.IntSort(), z3.RealSort()), z3.ArraySort(z3.IntSort(), z3.RealSort()), z3.IntSort(), z3.RealSort())
 
-SPEC_FUNCS = {"sum_le", "sum_ext", "old", "forall", "exists", "implies", "iff", "wsum", "exp", "log", "fresh", "same", "ite", "length", "pow", "written", "nwrites", "at_loop_entry", "divides", "is_int"}
+F_EFAC = z3.Function("efac", z3.RealSort(), z3.ArraySort(z3.IntSort(), z3.RealSort()))
+
+SPEC_FUNCS = {"count_lt", "count_le", "evw", "sum_le", "sum_ext", "old", "forall", "exists", "implies", "iff", "wsum", "exp", "log", "fresh", "same", "ite", "length", "pow", "written", "nwrites", "at_loop_entry", "divides", "is_int"}
 
 
 class Contract:
@@ -179,6 +181,40 @@ def spec_call(interp, node, st):
         if rd is None or ra is None:
             raise ToolLimit("wsum over non-arrays")
         return F_WSUM(rd.term, ra.term, z(k))
+    if fn in ("count_lt", "count_le"):
+        from .interp import MaskV
+        arr = interp.ev(a[0], st)
+        x = interp.ev(a[1], st)
+        return interp.count_mask(MaskV(arr, "<" if fn == "count_lt" else "<=", x), st, node)
+    if fn == "evw":
+        # evw(prof, z): ghost weight array of the evaporation layer of depth z:  evw[j] = factor_j(z) * dz[j]
+        #   = dz[j] - (dzsum[j] - z) if dzsum[j] > z else dz[j]      (definitional extension: such an array exists)
+        prof = interp.ev(a[0], st)
+        zz = z(interp.ev(a[1], st), True)
+        dz = interp.arr(st, interp.read_field(st, prof, "dz"))
+        dzsum = interp.arr(st, interp.read_field(st, prof, "dzsum"))
+
+        def mk(zt):
+            if z3.is_app(zt) and zt.decl().kind() == z3.Z3_OP_ITE:      # lift if-then-else depths out of the weight family
+                return z3.If(zt.arg(0), mk(zt.arg(1)), mk(zt.arg(2)))
+            term = F_EFAC(zt)
+            axc = interp.ctx.__dict__.setdefault("evw_axioms", {})
+            if zt.get_id() not in axc:
+                j = z3.Int("je!q%d" % next(interp.ctx.counter))
+                axc[zt.get_id()] = (z3.ForAll([j], z3.Implies(z3.And(j >= 0, j < z(dz.length)),
+                                                              z3.Select(term, j) == z3.If(z3.Select(dzsum.term, j) > zt,
+                                                                                          z3.Select(dz.term, j) - (z3.Select(dzsum.term, j) - zt), z3.Select(dz.term, j)))), zt)
+            st.pc.append(axc[zt.get_id()][0])
+            return term
+        term = mk(zz)
+        from .interp import ArrRec
+        cache = interp.ctx.__dict__.setdefault("evw_cache", {})
+        k = zz.get_id()
+        if k not in cache:
+            cache[k] = (interp.ctx.new_oid(), zz)
+        oid = cache[k][0]
+        st.heap[oid] = ArrRec(term, dz.length, "Real", writable=False, fresh=False, name="evw")
+        return Ref(oid)
     if fn in ("sum_le", "sum_ext"):
         # instances of library lemmas (proved by induction in vc/lemmas.py); only meaningful as hypotheses
         dz, x, y, k = [interp.ev(e, st) for e in a]
@@ -256,6 +292,10 @@ def eval_clause(interp, text, st, polarity, old=None, extra=None):
     s.old = old if old is not None else st.old
     if extra:
         s.locals.update(extra)
+    npc = len(s.pc)
     v = truth(interp.ev(node, s))
     _sync_heap(st, s)
+    # definitional facts introduced while evaluating the clause (count witnesses, ghost weight arrays) are kept
+    for extra_fact in s.pc[npc:]:
+        st.pc.append(extra_fact)
     return v
